@@ -155,13 +155,16 @@ impl Config {
 }
 
 pub fn toml_value_from_str(string: &str) -> toml::Value {
-    let try_parse = toml::from_str::<toml::Value>(string);
+    // `toml::from_str` parses a whole TOML *document*, so a bare value such as `true` or `"name"` never
+    // parses on its own. Wrap it in a one-key document and take the value back out.
+    let try_parse = toml::from_str::<Table>(&format!("value = {string}"));
 
     // If there's an error parsing (because clap will not parse quotes, for example), we just treat what we're passed as a string:
-    if let Ok(out) = try_parse {
-        out
-    } else {
-        toml::Value::String(string.to_string())
+    match try_parse {
+        Ok(mut table) if table.len() == 1 => table
+            .remove("value")
+            .unwrap_or_else(|| toml::Value::String(string.to_string())),
+        _ => toml::Value::String(string.to_string()),
     }
 }
 
